@@ -25,7 +25,7 @@ from pyvc.contract import REGISTRY  # noqa: E402
 from pyvc import worker  # noqa: E402
 
 CONTRACT_MODULES = ['contracts.l0_mr', 'contracts.l0_log', 'contracts.planner', 'contracts.l1_tm', 'contracts.l1_tm_algebra', 'contracts.l2_screw_wrench',
-                    'contracts.l2_fsr', 'contracts.comms', 'contracts.l3_arm', 'contracts.l3_sp', 'contracts.l3_urdf',
+                    'contracts.l2_fsr', 'contracts.comms', 'contracts.l3_ik', 'contracts.l3_arm', 'contracts.l3_sp', 'contracts.l3_urdf',
                     'contracts.rel_mr', 'contracts.dyn', 'contracts.dispc', 'contracts.c14_values', 'contracts.c17_index']
 
 
